@@ -46,7 +46,7 @@ func c06DirectiveAnchored(c *Ctx, pk *packages.Package) {
 				continue
 			}
 			seen++
-			if o.Name() != "HasPrefix" {
+			if o.Name() != "HasPrefix" && o.Name() != "CutPrefix" && o.Name() != "TrimPrefix" {
 				bad = append(bad, "strings."+o.Name())
 			}
 		}
@@ -54,7 +54,7 @@ func c06DirectiveAnchored(c *Ctx, pk *packages.Package) {
 			continue
 		}
 		n++
-		c.Ob(rule, ssaFuncName(sf), sf.Pos(), len(bad) == 0, true, "%d strings calls on the comment line, all anchored at its start (HasPrefix); others: %v", seen, bad)
+		c.Ob(rule, ssaFuncName(sf), sf.Pos(), len(bad) == 0, true, "%d strings calls on the comment line, all anchored at its start (HasPrefix / CutPrefix / TrimPrefix); others: %v", seen, bad)
 	}
 	if n == 0 {
 		c.Fail(rule, "anchor", token.NoPos, "no func(line, prefix, ruleID string) bool applying strings functions to its line found in bufcheck")
